@@ -633,6 +633,464 @@ example (junk : List Nat) (c : Segs) (hc : c.flatten = wire [m1] ++ (be32 65 ++ 
 example : (lrun 1 {} [.send [1], .send [2], .move, .send [3], .recv, .move, .recv]).1.got = [[1], [3]] := by
   decide
 
+
+/-! ### the sending side -/
+
+theorem writeHeader_spec (hdr : List Nat) (o : List WAct) :
+    ∃ k, (writeHeader hdr o).1.flatten = hdr.take k ∧
+      ((writeHeader hdr o).2.1 = true → (writeHeader hdr o).1.flatten = hdr) := by
+  cases o with
+  | nil => exact ⟨hdr.length, by simp [writeHeader], by simp [writeHeader]⟩
+  | cons a o =>
+    cases a with
+    | acc k => exact ⟨hdr.length, by simp [writeHeader], by simp [writeHeader]⟩
+    | fail k => exact ⟨k, by simp [writeHeader], by simp [writeHeader]⟩
+
+theorem writeBody_spec (fuel : Nat) (rest : List Nat) (o : List WAct) (hf : rest.length ≤ fuel) :
+    ∃ k, (writeBody fuel rest o).1.flatten = rest.take k ∧
+      ((writeBody fuel rest o).2.1 = true → (writeBody fuel rest o).1.flatten = rest) := by
+  induction fuel generalizing rest o with
+  | zero =>
+    have : rest = [] := List.eq_nil_of_length_eq_zero (by omega)
+    subst this
+    exact ⟨0, by simp [writeBody], by simp [writeBody]⟩
+  | succ fuel ih =>
+    by_cases he : rest = []
+    · subst he
+      exact ⟨0, by simp [writeBody], by simp [writeBody]⟩
+    · have hemp : rest.isEmpty = false := by simpa using he
+      cases o with
+      | nil => exact ⟨rest.length, by simp [writeBody, hemp], by simp [writeBody, hemp]⟩
+      | cons a o =>
+        cases a with
+        | fail k => exact ⟨k, by simp [writeBody, hemp], by simp [writeBody, hemp]⟩
+        | acc k =>
+          have hpos : 1 ≤ rest.length := by
+            cases rest with
+            | nil => exact absurd rfl he
+            | cons a t => simp
+          obtain ⟨j, h1, h2⟩ := ih (rest.drop (max k 1)) o (by simp; omega)
+          refine ⟨max k 1 + j, ?_, ?_⟩
+          · simp only [writeBody, hemp, Bool.false_eq_true, if_false, List.flatten_cons, h1]
+            rw [← List.take_add]
+          · intro hok
+            simp only [writeBody, hemp, Bool.false_eq_true, if_false] at hok ⊢
+            simp only [List.flatten_cons, h2 hok, List.take_append_drop]
+
+theorem sendRaw_hdr_fail (b : List Nat) (o : List WAct)
+    (h : (writeHeader (be32 b.length) o).2.1 = false) : sendRaw b o = writeHeader (be32 b.length) o := by
+  unfold sendRaw; simp [h]
+
+theorem sendRaw_hdr_ok (b : List Nat) (o : List WAct)
+    (h : (writeHeader (be32 b.length) o).2.1 = true) :
+    sendRaw b o = ((writeHeader (be32 b.length) o).1 ++ (writeBody b.length b (writeHeader (be32 b.length) o).2.2).1,
+      (writeBody b.length b (writeHeader (be32 b.length) o).2.2).2.1,
+      (writeBody b.length b (writeHeader (be32 b.length) o).2.2).2.2) := by
+  unfold sendRaw; simp [h]
+
+/-- what `sendRaw` leaves on the wire is a prefix of the frame — the whole frame when it reports
+success -/
+theorem sendRaw_spec (b : List Nat) (o : List WAct) :
+    ∃ k, (sendRaw b o).1.flatten = (encFrame b).take k ∧
+      ((sendRaw b o).2.1 = true → (sendRaw b o).1.flatten = encFrame b) := by
+  obtain ⟨k, h1, h2⟩ := writeHeader_spec (be32 b.length) o
+  by_cases hh : (writeHeader (be32 b.length) o).2.1 = true
+  · rw [sendRaw_hdr_ok b o hh]
+    obtain ⟨j, b1, b2⟩ := writeBody_spec b.length b (writeHeader (be32 b.length) o).2.2 (Nat.le_refl _)
+    refine ⟨4 + j, ?_, ?_⟩
+    · rw [List.flatten_append, h2 hh, b1, encFrame, List.take_append, be32_length]
+      simp [List.take_of_length_le, be32_length]
+    · intro hok
+      rw [List.flatten_append, h2 hh, b2 hok, encFrame]
+  · have hf : (writeHeader (be32 b.length) o).2.1 = false := by simpa using hh
+    rw [sendRaw_hdr_fail b o hf]
+    refine ⟨min k 4, ?_, fun h => absurd h hh⟩
+    rw [h1, encFrame, List.take_append, be32_length]
+    have : min k 4 - 4 = 0 := by omega
+    rw [this, List.take_zero, List.append_nil]
+    by_cases hk : k ≤ 4
+    · rw [Nat.min_eq_left hk]
+    · rw [Nat.min_eq_right (by omega), List.take_of_length_le (by simp [be32_length]; omega),
+        List.take_of_length_le (by simp [be32_length])]
+theorem sendAll_closed (c : SConn) (hc : c.closed = true) (bufs : List (List Nat)) :
+    c.sendAll bufs = (c, List.replicate bufs.length false) := by
+  induction bufs with
+  | nil => rfl
+  | cons b l ih =>
+    have h1 : c.send b = (c, false) := by simp [SConn.send, hc]
+    simp only [SConn.sendAll, h1, ih, List.length_cons, List.replicate_succ]
+
+/-- **a sender that keeps calling `Send`**, whatever the transport does to its writes: the results
+are successes up to some call `j` and failures from there on; the wire carries exactly the frames
+reported written, in order, and — when a write failed — a prefix of the one frame that failed and
+nothing after it (the connection is closed). -/
+theorem sendAll_spec (bufs : List (List Nat)) (c : SConn) (pre : List (List Nat))
+    (hc : c.closed = false) (hout : c.out.flatten = wire pre) :
+    ∃ j, j ≤ bufs.length ∧
+      (c.sendAll bufs).2 = List.replicate j true ++ List.replicate (bufs.length - j) false ∧
+      ((j = bufs.length ∧ (c.sendAll bufs).1.closed = false ∧
+          (c.sendAll bufs).1.out.flatten = wire (pre ++ bufs)) ∨
+       (j < bufs.length ∧ (c.sendAll bufs).1.closed = true ∧ ∃ b k, bufs[j]? = some b ∧
+          (c.sendAll bufs).1.out.flatten = wire (pre ++ bufs.take j) ++ (encFrame b).take k)) := by
+  induction bufs generalizing c pre with
+  | nil => exact ⟨0, by simp, by simp [SConn.sendAll], .inl ⟨rfl, by simpa [SConn.sendAll] using hc, by simpa [SConn.sendAll] using hout⟩⟩
+  | cons b l ih =>
+    obtain ⟨k, s1, s2⟩ := sendRaw_spec b c.oracle
+    have hsend : c.send b = (SConn.mk (!(sendRaw b c.oracle).2.1) (c.out ++ (sendRaw b c.oracle).1)
+        (sendRaw b c.oracle).2.2, (sendRaw b c.oracle).2.1) := by simp [SConn.send, hc]
+    by_cases hok : (sendRaw b c.oracle).2.1 = true
+    · -- this frame went out completely
+      have hout' : (c.send b).1.out.flatten = wire (pre ++ [b]) := by
+        rw [hsend]; simp only [List.flatten_append, hout, s2 hok, wire_append]; simp [wire]
+      have hc' : (c.send b).1.closed = false := by rw [hsend]; simp [hok]
+      obtain ⟨j, hj, hres, hcase⟩ := ih (c.send b).1 (pre ++ [b]) hc' hout'
+      refine ⟨j + 1, by simp; omega, ?_, ?_⟩
+      · simp only [SConn.sendAll, hres, List.length_cons]
+        rw [show (c.send b).2 = true from by rw [hsend]; exact hok]
+        simp [List.replicate_succ]
+      · rcases hcase with ⟨e1, e2, e3⟩ | ⟨e1, e2, b', k', e3, e4⟩
+        · exact .inl ⟨by simp [e1], by simpa [SConn.sendAll] using e2, by simpa [SConn.sendAll, List.append_assoc] using e3⟩
+        · exact .inr ⟨by simp; omega, by simpa [SConn.sendAll] using e2, b', k', by simpa using e3,
+            by simpa [SConn.sendAll, List.append_assoc] using e4⟩
+    · -- the write failed: closed, every later call refused
+      have hf : (sendRaw b c.oracle).2.1 = false := by simpa using hok
+      have hc' : (c.send b).1.closed = true := by rw [hsend]; simp [hf]
+      refine ⟨0, by simp, ?_, .inr ⟨by simp, ?_, b, k, by simp, ?_⟩⟩
+      · simp only [SConn.sendAll, sendAll_closed _ hc' l]
+        rw [show (c.send b).2 = false from by rw [hsend]; exact hf]
+        simp [List.replicate_succ]
+      · simp only [SConn.sendAll, sendAll_closed _ hc' l]; exact hc'
+      · simp only [SConn.sendAll, sendAll_closed _ hc' l]
+        rw [hsend]; simp [hout, s1]
+
+/-- a transport that never fails a write (it may still take the bytes in pieces of any size) -/
+def NoFail (o : List WAct) : Prop := ∀ a ∈ o, ∃ k, a = WAct.acc k
+
+theorem writeHeader_noFail (hdr : List Nat) (o : List WAct) (h : NoFail o) :
+    (writeHeader hdr o).2.1 = true ∧ NoFail (writeHeader hdr o).2.2 := by
+  cases o with
+  | nil => exact ⟨rfl, h⟩
+  | cons a o =>
+    obtain ⟨k, rfl⟩ := h a (by simp)
+    exact ⟨rfl, fun x hx => h x (by simp [writeHeader] at hx; simp [hx])⟩
+
+theorem writeBody_noFail (fuel : Nat) (rest : List Nat) (o : List WAct) (hf : rest.length ≤ fuel)
+    (h : NoFail o) : (writeBody fuel rest o).2.1 = true ∧ NoFail (writeBody fuel rest o).2.2 := by
+  induction fuel generalizing rest o with
+  | zero =>
+    have : rest = [] := List.eq_nil_of_length_eq_zero (by omega)
+    subst this
+    exact ⟨rfl, h⟩
+  | succ fuel ih =>
+    by_cases he : rest = []
+    · subst he; exact ⟨rfl, h⟩
+    · have hemp : rest.isEmpty = false := by simpa using he
+      have hpos : 1 ≤ rest.length := by
+        cases rest with
+        | nil => exact absurd rfl he
+        | cons a t => simp
+      cases o with
+      | nil => exact ⟨by simp [writeBody, hemp], by simp [writeBody, hemp, NoFail]⟩
+      | cons a o =>
+        obtain ⟨k, rfl⟩ := h a (by simp)
+        have := ih (rest.drop (max k 1)) o (by simp; omega) (fun x hx => h x (by simp [hx]))
+        simpa [writeBody, hemp] using this
+
+theorem sendRaw_noFail (b : List Nat) (o : List WAct) (h : NoFail o) :
+    (sendRaw b o).2.1 = true ∧ NoFail (sendRaw b o).2.2 := by
+  have hh := writeHeader_noFail (be32 b.length) o h
+  rw [sendRaw_hdr_ok b o hh.1]
+  exact writeBody_noFail b.length b _ (Nat.le_refl _) hh.2
+
+theorem sendAll_noFail (bufs : List (List Nat)) (c : SConn) (hc : c.closed = false)
+    (h : NoFail c.oracle) : (c.sendAll bufs).2 = List.replicate bufs.length true := by
+  induction bufs generalizing c with
+  | nil => rfl
+  | cons b l ih =>
+    have hs := sendRaw_noFail b c.oracle h
+    have hsend : c.send b = (SConn.mk (!(sendRaw b c.oracle).2.1) (c.out ++ (sendRaw b c.oracle).1)
+        (sendRaw b c.oracle).2.2, (sendRaw b c.oracle).2.1) := by simp [SConn.send, hc]
+    simp only [SConn.sendAll, List.length_cons, List.replicate_succ]
+    rw [ih (c.send b).1 (by rw [hsend]; simp [hs.1]) (by rw [hsend]; exact hs.2)]
+    rw [hsend]; simp [hs.1]
+
+theorem replicate_true_eq (j n : Nat) (hj : j ≤ n)
+    (h : List.replicate n true = List.replicate j true ++ List.replicate (n - j) false) : j = n := by
+  have hl : (List.replicate n true).all id = true := by simp
+  rw [h] at hl
+  simp at hl
+  omega
+
+/-- **send, then receive, is the identity on sequences of messages** — over every way the transport
+takes the sender's writes (partial writes of any sizes, header cut anywhere) and every way it hands
+the bytes to the receiver's reads: every `Send` reports success and `receiveRaw` yields exactly the
+buffers sent, in order, then EOF. -/
+theorem c03_send_recv_identity (max : Nat) (hmax : max < 2^32) (bufs : List (List Nat))
+    (hb : ∀ f ∈ bufs, f.length ≤ max) (o : List WAct) (ho : NoFail o)
+    (c : Segs) (hc : c.flatten = (({ oracle := o } : SConn).sendAll bufs).1.out.flatten)
+    (fuel : Nat) (hfuel : bufs.length + 1 ≤ fuel) :
+    (({ oracle := o } : SConn).sendAll bufs).2 = List.replicate bufs.length true ∧
+    recvFrames max fuel c = (bufs, some .eof) := by
+  have hall := sendAll_noFail bufs { oracle := o } rfl ho
+  refine ⟨hall, ?_⟩
+  obtain ⟨j, hj, hres, hcase⟩ := sendAll_spec bufs { oracle := o } [] rfl (by simp [wire])
+  rw [hall] at hres
+  have hjn := replicate_true_eq j bufs.length hj hres
+  rcases hcase with ⟨_, _, e3⟩ | ⟨e1, _⟩
+  · exact c03_frame_roundtrip max hmax bufs hb c (by rw [hc, e3]; simp) fuel hfuel
+  · omega
+
+/-- the same at the level of values: marshalled, written in whatever pieces, read in whatever
+pieces, unmarshalled, dispatched — equal values, in order, once -/
+theorem c03_send_recv_values {V : Type} (cd : Codec V) (hcd : cd.Sound) (max : Nat) (hmax : max < 2^32)
+    (vs : List V) (hv : ∀ v ∈ vs, cd.sendable v = true ∧ (bufOf cd v).length ≤ max)
+    (o : List WAct) (ho : NoFail o) (c : Segs)
+    (hc : c.flatten = (({ oracle := o } : SConn).sendAll (vs.map (bufOf cd))).1.out.flatten) :
+    recvAll cd max c = vs.map .deliver ++ [.closed .eof] := by
+  obtain ⟨j, hj, hres, hcase⟩ := sendAll_spec (vs.map (bufOf cd)) { oracle := o } [] rfl (by simp [wire])
+  rw [sendAll_noFail _ { oracle := o } rfl ho] at hres
+  have hjn := replicate_true_eq j _ hj hres
+  rcases hcase with ⟨_, _, e3⟩ | ⟨e1, _⟩
+  · exact c03_value_delivery cd hcd max hmax vs hv c (by rw [hc, e3]; simp)
+  · omega
+
+/-- **a failed write is contained**: whatever the transport does (partial writes, failures at any
+byte), a sender that goes on calling `Send` gets successes up to some call `j` and errors from
+there on, and the receiver — under every segmentation — is handed exactly the `j` frames reported
+written, in order (plus, at most, the one frame whose write failed, when the failure came after
+its last byte), then EOF.  No frame reported written is lost, nothing is mis-parsed. -/
+theorem c03_send_failure_contained {V : Type} (cd : Codec V) (max : Nat) (hmax : max < 2^32)
+    (bufs : List (List Nat)) (hb : ∀ f ∈ bufs, f.length ≤ max) (o : List WAct) (c : Segs)
+    (hc : c.flatten = (({ oracle := o } : SConn).sendAll bufs).1.out.flatten) :
+    ∃ j, j ≤ bufs.length ∧
+      (({ oracle := o } : SConn).sendAll bufs).2 =
+        List.replicate j true ++ List.replicate (bufs.length - j) false ∧
+      (recvAll cd max c = (bufs.take j).map (classify cd) ++ [.closed .eof] ∨
+       recvAll cd max c = (bufs.take (j + 1)).map (classify cd) ++ [.closed .eof]) := by
+  obtain ⟨j, hj, hres, hcase⟩ := sendAll_spec bufs { oracle := o } [] rfl (by simp [wire])
+  refine ⟨j, hj, hres, ?_⟩
+  rcases hcase with ⟨e1, _, e3⟩ | ⟨e1, _, b, k, e3, e4⟩
+  · left
+    rw [e1, List.take_length]
+    exact recvAll_frames cd max hmax bufs [] .eof hb (endsWith_nil max) rfl c (by rw [hc, e3]; simp)
+  · have hbm : b ∈ bufs := List.mem_of_getElem? e3
+    have htake : ∀ f ∈ bufs.take j, f.length ≤ max := fun f hf => hb f (List.mem_of_mem_take hf)
+    by_cases hk : k < (encFrame b).length
+    · left
+      exact c03_truncated_stream cd max hmax (bufs.take j) b k htake (hb b hbm) hk c
+        (by rw [hc, e4]; simp)
+    · right
+      have hfull : (encFrame b).take k = encFrame b := List.take_of_length_le (by omega)
+      have hsucc : bufs.take (j + 1) = bufs.take j ++ [b] := by
+        rw [List.take_add_one, e3]; rfl
+      rw [hsucc]
+      exact recvAll_frames cd max hmax (bufs.take j ++ [b]) [] .eof
+        (by intro f hf; rcases List.mem_append.mp hf with h | h
+            · exact htake f h
+            · simp at h; subst h; exact hb _ hbm)
+        (endsWith_nil max) rfl c (by rw [hc, e4, hfull, wire_append]; simp [wire])
+
+
+/-! ### concurrent senders: `sendMutex` -/
+
+theorem setThr_same (s : CS) (i : Nat) (t : Thr) : s.setThr i t i = t := by simp [CS.setThr]
+theorem setThr_other (s : CS) (i j : Nat) (t : Thr) (h : j ≠ i) : s.setThr i t j = s.thr j := by
+  simp [CS.setThr, h]
+
+/-- what holds in every reachable state of the senders of one connection -/
+def CInv (q : Nat → List (List Nat)) (s : CS) : Prop :=
+  (∀ i, ((s.log.filter (fun e => e.1 == i)).map (·.2)) ++ (s.thr i).todo = q i) ∧
+  ((s.locked = none ∧ (∀ i, (s.thr i).cur = none) ∧ s.wire = wire (s.log.map (·.2))) ∨
+   (∃ h r pre b, s.locked = some h ∧ (∀ j, j ≠ h → (s.thr j).cur = none) ∧ (s.thr h).cur = some r ∧
+      s.log = pre ++ [(h, b)] ∧
+      ∃ n, s.wire = wire (pre.map (·.2)) ++ (encFrame b).take n ∧ r = (encFrame b).drop n))
+
+theorem cinv_init (q : Nat → List (List Nat)) : CInv q (cinit q) :=
+  ⟨fun i => by simp [cinit], .inl ⟨rfl, fun i => rfl, by simp [cinit, wire]⟩⟩
+
+theorem cstep_inv (q : Nat → List (List Nat)) (s s' : CS) (i k : Nat) (hinv : CInv q s)
+    (hs : cstep true s i k = some s') : CInv q s' := by
+  obtain ⟨hord, hst⟩ := hinv
+  unfold cstep at hs
+  rcases hst with ⟨hl, hcur, hw⟩ | ⟨h, r, pre, b, hl, hoth, hh, hlog, n, hw, hr⟩
+  · -- nobody inside Send
+    rw [hcur i] at hs
+    simp only at hs
+    cases htodo : (s.thr i).todo with
+    | nil => rw [htodo] at hs; simp at hs
+    | cons b rest =>
+      rw [htodo] at hs
+      simp only [hl, Option.isSome_none, Bool.and_false, Bool.false_eq_true, if_false, Option.some.injEq] at hs
+      subst hs
+      refine ⟨fun j => ?_, .inr ⟨i, encFrame b, s.log, b, rfl, fun j hj => ?_, ?_, rfl, ?_⟩⟩
+      · by_cases hj : j = i
+        · subst hj
+          have := hord j
+          rw [htodo] at this
+          simp only [setThr_same, List.filter_append, List.map_append]
+          simpa [List.append_assoc] using this
+        · have := hord j
+          simp only [setThr_other _ _ _ _ hj, List.filter_append, List.map_append]
+          have hne : (i == j) = false := by simpa using fun h => hj h.symm
+          simpa [hne] using this
+      · simp only [setThr_other _ _ _ _ hj]; exact hcur j
+      · simp [setThr_same]
+      · exact ⟨0, by simp [hw], by simp⟩
+  · -- thread h is inside Send
+    by_cases hi : i = h
+    · subst hi
+      rw [hh] at hs
+      simp only at hs
+      by_cases hre : r.isEmpty = true
+      · -- releases the mutex
+        simp only [hre, if_true, Option.some.injEq] at hs
+        subst hs
+        have hr' : r = [] := by simpa using hre
+        refine ⟨fun j => ?_, .inl ⟨rfl, fun j => ?_, ?_⟩⟩
+        · by_cases hj : j = i
+          · subst hj; simpa [setThr_same] using hord j
+          · simpa [setThr_other _ _ _ _ hj] using hord j
+        · by_cases hj : j = i
+          · subst hj; simp [setThr_same]
+          · simp only [setThr_other _ _ _ _ hj]; exact hoth j hj
+        · have hn : (encFrame b).length ≤ n := by
+            rw [hr'] at hr
+            have := congrArg List.length hr
+            simp at this; omega
+          rw [hw, hlog, List.map_append, wire_append, List.take_of_length_le hn]; simp [wire]
+      · -- writes a piece
+        simp only [hre, Bool.false_eq_true, if_false, Option.some.injEq] at hs
+        subst hs
+        refine ⟨fun j => ?_, .inr ⟨i, r.drop (max k 1), pre, b, hl, fun j hj => ?_, ?_, hlog,
+          n + max k 1, ?_, ?_⟩⟩
+        · by_cases hj : j = i
+          · subst hj; simpa [setThr_same] using hord j
+          · simpa [setThr_other _ _ _ _ hj] using hord j
+        · simp only [setThr_other _ _ _ _ hj]; exact hoth j hj
+        · simp [setThr_same]
+        · simp only [hw, hr, List.append_assoc, List.take_add]
+        · simp only [hr, List.drop_drop]
+    · -- another thread: it can only be waiting for the mutex
+      rw [hoth i hi] at hs
+      simp only at hs
+      cases htodo : (s.thr i).todo with
+      | nil => rw [htodo] at hs; simp at hs
+      | cons b' rest => rw [htodo] at hs; simp [hl] at hs
+
+theorem crun_inv (q : Nat → List (List Nat)) (sched : List (Nat × Nat)) (s : CS) (hinv : CInv q s) :
+    CInv q (crun true s sched) := by
+  induction sched generalizing s with
+  | nil => exact hinv
+  | cons a l ih =>
+    obtain ⟨i, k⟩ := a
+    simp only [crun]
+    cases hs : cstep true s i k with
+    | none => exact ih s hinv
+    | some s' => exact ih s' (cstep_inv q s s' i k hinv hs)
+
+theorem log_mem_queue (q : Nat → List (List Nat)) (s : CS) (hinv : CInv q s) (i : Nat) (b : List Nat)
+    (h : (i, b) ∈ s.log) : b ∈ q i := by
+  rw [← hinv.1 i]
+  apply List.mem_append_left
+  exact List.mem_map.mpr ⟨(i, b), List.mem_filter.mpr ⟨h, by simp⟩, rfl⟩
+
+/-- **concurrent senders on one connection cannot interleave frames** (`sendMutex`): under every
+schedule of any number of threads calling `Send`, with their writes cut into pieces of any sizes,
+whenever nobody is inside `Send` the wire is the concatenation of whole frames in the order the
+mutex was taken — so the receiver, under every segmentation, gets exactly those buffers — and the
+buffers of each thread appear in that thread's own order, none lost, none twice. -/
+theorem c03_mutex_no_interleave (q : Nat → List (List Nat)) (sched : List (Nat × Nat))
+    (max : Nat) (hmax : max < 2^32) (hq : ∀ i, ∀ b ∈ q i, b.length ≤ max)
+    (hl : (crun true (cinit q) sched).locked = none)
+    (c : Segs) (hc : c.flatten = (crun true (cinit q) sched).wire)
+    (fuel : Nat) (hfuel : (crun true (cinit q) sched).log.length + 1 ≤ fuel) :
+    recvFrames max fuel c = ((crun true (cinit q) sched).log.map (·.2), some .eof) ∧
+    ∀ i, (((crun true (cinit q) sched).log.filter (fun e => e.1 == i)).map (·.2)) ++
+        ((crun true (cinit q) sched).thr i).todo = q i := by
+  have hinv := crun_inv q sched (cinit q) (cinv_init q)
+  refine ⟨?_, hinv.1⟩
+  rcases hinv.2 with ⟨_, _, hw⟩ | ⟨h, _, _, _, hl', _⟩
+  · apply c03_frame_roundtrip max hmax _ _ c (by rw [hc, hw]) fuel (by simpa using hfuel)
+    intro f hf
+    obtain ⟨⟨i, b⟩, hm, rfl⟩ := List.mem_map.mp hf
+    exact hq i b (log_mem_queue q _ hinv i b hm)
+  · rw [hl] at hl'; cases hl'
+
+/-- while a thread is inside `Send`, the wire is whole frames followed by a prefix of *its* frame -/
+theorem c03_mutex_partial_is_holders (q : Nat → List (List Nat)) (sched : List (Nat × Nat)) (h : Nat)
+    (hl : (crun true (cinit q) sched).locked = some h) :
+    ∃ pre b k, (crun true (cinit q) sched).log = pre ++ [(h, b)] ∧
+      (crun true (cinit q) sched).wire = wire (pre.map (·.2)) ++ (encFrame b).take k := by
+  have hinv := crun_inv q sched (cinit q) (cinv_init q)
+  rcases hinv.2 with ⟨hl', _, _⟩ | ⟨h', r, pre, b, hl', _, _, hlog, n, hw, _⟩
+  · rw [hl] at hl'; cases hl'
+  · rw [hl] at hl'; cases hl'
+    exact ⟨pre, b, n, hlog, hw⟩
+
+/-- **nothing is stuck at quiescence**: when no thread can take a step, nobody holds the mutex,
+every thread has sent all its buffers, and the wire holds them all as whole frames -/
+theorem c03_mutex_quiescent (q : Nat → List (List Nat)) (s : CS) (hinv : CInv q s)
+    (hq : ∀ i k, cstep true s i k = none) :
+    s.locked = none ∧ (∀ i, (s.thr i).todo = [] ∧ (s.thr i).cur = none) ∧
+    s.wire = wire (s.log.map (·.2)) ∧
+    ∀ i, (s.log.filter (fun e => e.1 == i)).map (·.2) = q i := by
+  rcases hinv.2 with ⟨hl, hcur, hw⟩ | ⟨h, r, _, _, _, _, hh, _⟩
+  · have htodo : ∀ i, (s.thr i).todo = [] := by
+      intro i
+      have := hq i 0
+      unfold cstep at this
+      rw [hcur i] at this
+      cases ht : (s.thr i).todo with
+      | nil => rfl
+      | cons b rest => rw [ht] at this; simp [hl] at this
+    refine ⟨hl, fun i => ⟨htodo i, hcur i⟩, hw, fun i => ?_⟩
+    have := hinv.1 i
+    rw [htodo i, List.append_nil] at this
+    exact this
+  · have := hq h 0
+    unfold cstep at this
+    rw [hh] at this
+    by_cases hr : r.isEmpty = true <;> simp [hr] at this
+
+/-- without the mutex two senders do interleave: the headers of two one-byte messages go out back
+to back and the receiver reads garbage (a frame nobody sent, then a "length" above the limit) -/
+theorem c03_no_mutex_interleaves :
+    ∃ (q : Nat → List (List Nat)) (sched : List (Nat × Nat)),
+      (crun false (cinit q) sched).locked = none ∧
+      recvFrames 64 4 [(crun false (cinit q) sched).wire] = ([[0]], some .tooBig) :=
+  ⟨fun i => if i = 0 then [[1]] else if i = 1 then [[2]] else [],
+   [(0, 0), (1, 0), (0, 4), (1, 4), (0, 1), (1, 1), (0, 0), (1, 0)], by decide⟩
+
+/-! ### non-vacuity and counter-examples for the sending side -/
+
+/-- a transport that takes the header in two pieces and the body one, two, then all bytes at a
+time: every `Send` succeeds (the hypotheses of `c03_send_recv_identity` are satisfiable) -/
+example : NoFail [.acc 1, .acc 1, .acc 2, .acc 9] := by
+  intro a ha; simp at ha; rcases ha with rfl | rfl | rfl | rfl <;> exact ⟨_, rfl⟩
+
+example : (({ oracle := [.acc 1, .acc 1, .acc 2, .acc 9] } : SConn).sendAll [[7, 8, 9, 10], [5]]).1.out =
+    [[0], [0, 0, 4], [7], [8, 9], [10], [0, 0, 0, 1], [5]] := by decide
+
+/-- a write that fails inside the second frame: the connection is closed, the third `Send` is
+refused, and the receiver gets the first frame and EOF -/
+example : (({ oracle := [.acc 4, .acc 1, .acc 4, .fail 2] } : SConn).sendAll [[1], [2, 3, 4, 5, 6, 7, 8, 9, 10], [11]]).2 =
+    [true, false, false] := by decide
+
+/-- **before the fix** (the connection stayed usable after a failed write): the third `Send`
+reports success, its frame is swallowed as the rest of the unfinished body, and the receiver never
+sees it — `Send` returned nil for a message that is lost. -/
+theorem c03_partial_write_reuse_loses :
+    ∃ (bufs : List (List Nat)) (o : List WAct),
+      (({ oracle := o } : SConn).sendAllNoClose bufs).2 = [true, false, true] ∧
+      recvFrames 64 10 (({ oracle := o } : SConn).sendAllNoClose bufs).1.out = ([[1]], some .eof) :=
+  ⟨[[1], [2, 3, 4, 5, 6, 7, 8, 9, 10], [11]], [.acc 4, .acc 1, .acc 4, .fail 2], by decide⟩
+
+/-- two threads, two buffers each: thread 1 waits while thread 0 is inside `Send`, and is itself
+inside `Send` (three header bytes out) when the schedule ends -/
+example : (crun true (cinit fun i => if i < 2 then [[i], [i, i]] else [])
+      [(0, 0), (1, 0), (0, 2), (0, 9), (1, 1), (0, 0), (1, 0), (1, 3), (0, 0)]).wire =
+    wire [[0]] ++ [0, 0, 0] := by decide
+
 /-! ### the code regions the model stands for
 Regenerated from /repo's source on every run (`harness/cmd/astfacts` → `OnetVerif/Shapes.lean`): the
 calls that matter for synchronisation and data flow, the lock regions and (for decision logic) the
